@@ -41,6 +41,13 @@ func (g *G) genC07(p *Plan) {
 			c.LinUploads = append(c.LinUploads, [2]string{b, key()})
 		}
 	}
+	if c.IsFS() && nup == 0 && g.chance(0.2) {
+		// a key below another key: a file-system backend holds one of the two
+		// at a time and refuses the newcomer; whichever is acknowledged stays
+		// readable
+		keys = append(append([]string{}, keys...), keys[len(keys)-1]+"/part")
+		c.PathKeys = true
+	}
 	var allKeys []KeyRef
 	for _, k := range keys {
 		allKeys = append(allKeys, KeyRef{Key: k})
